@@ -8,6 +8,43 @@ From J5V.proofs Require Import CodecEncProofs CodecEncDecProofs.
 Import ListNotations.
 Local Open Scope N_scope.
 
+(* The property: a representable message encodes to a text that is one well-formed JSON document;
+   decoding that document (within the decoder's nesting bound) into a fresh message succeeds, and the
+   result equals the original property by property — decimals as normalised text, Any values as
+   (type name, JSON payload), an empty flattened sub-message and an absent one being the same.
+   Premises: the strconv float laws, "time.Parse starts with the RFC 3339 fast path", inner Any
+   encodings are compact JSON, and two structural facts about the environment that are decided on
+   every environment of every run (oneofs_flat, oneof_names_ok). *)
+Theorem C01_codec_roundtrip :
+  forall fmt_float any_inner parse_float parse_time env,
+    oneofs_flat env -> oneof_names_ok env ->
+    float_text_ok fmt_float -> float_roundtrip fmt_float parse_float -> time_parse_extends parse_time ->
+    inner_ok any_inner ->
+    forall root m txt,
+      rep_root env root m -> encode fmt_float any_inner env root m = Ok txt ->
+      exists J, strict_parse txt = Some J /\
+        (N.of_nat (jnest J) <= max_nesting ->
+         exists m', decode_tree parse_float parse_time env root J = Ok m' /\ equiv_root any_inner env root m m').
+Proof. exact codec_roundtrip. Qed.
+Print Assumptions C01_codec_roundtrip.
+
+(* the static conditions on a property list are decidable, and the decider is sound *)
+Theorem C01_props_ok_decided : forall env ps, props_ok_b env ps = true -> props_ok env ps.
+Proof. exact props_ok_b_sound. Qed.
+Print Assumptions C01_props_ok_decided.
+
+(* What is not covered (kept visible): encoding of a representable message succeeds (only the
+   conditional form above is proved; the direct oracle checks success on every generated message),
+   and protobuf Any values, which decode only with the WithProtoToAny option. *)
+Definition C01_full_statement : Prop :=
+  forall fmt_float any_inner parse_float parse_time env,
+    oneofs_flat env -> oneof_names_ok env ->
+    float_text_ok fmt_float -> float_roundtrip fmt_float parse_float -> time_parse_extends parse_time ->
+    inner_ok any_inner ->
+    forall root m, rep_root env root m ->
+      exists txt J m', encode fmt_float any_inner env root m = Ok txt /\ strict_parse txt = Some J /\
+                       decode_tree parse_float parse_time env root J = Ok m' /\ equiv_root any_inner env root m m'.
+
 (* every scalar kind, every value of its documented domain: the printer's token is read back by
    the matching arm of scalarReflectFromGo to the same value (decimals: to the normalised text).
    Premises: the strconv float law and "time.Parse starts with the RFC 3339 fast path". *)
@@ -51,6 +88,13 @@ Theorem C01_date_text : forall y m d,
 Proof. exact date_roundtrip. Qed.
 Print Assumptions C01_date_text.
 
+(* decimals: what the decoder stores (decimal.NewFromString, exponent bound, String()) denotes the
+   same number as the text that was encoded *)
+Theorem C01_decimal_numeric : forall s s', dec_normalise s = Some s' ->
+  exists a b, dec_parse s = Some a /\ dec_parse s' = Some b /\ dec_eq a b.
+Proof. exact dec_normalise_numeric. Qed.
+Print Assumptions C01_decimal_numeric.
+
 (* the former spelling of dates (finding 8, fixed) did not read back *)
 Theorem C01_date_v0_refuted : date_from_string (date_string_v0 5 1 2) = None.
 Proof. exact date_v0_refuted. Qed.
@@ -74,4 +118,55 @@ Proof.
            cbn [rep_scalar]. exists 1709251199%Z, 120000000%Z. split; [reflexivity|]. unfold ts_range. lia. }
   split. { cbn [rep_scalar]. exists [49; 46; 53; 48], [49; 46; 53]. repeat split; vm_compute; reflexivity. }
   split; vm_compute; reflexivity.
+Qed.
+
+(* non-vacuity of the structural theorem: an object with an int64, a flattened string and a oneof
+   wrapper; the message is representable, the static conditions hold, and the round trip computes *)
+Definition rt_env : env :=
+  [([82], SObject [mkProp [105] [1] false false [] (FScalar KInt64);
+                   mkProp [102] [2; 1] false false [] (FScalar KString);
+                   mkProp [119] [3] false true [] (FOneof [87])]);
+   ([87], SOneof [mkProp [97] [1] false true [2] (FScalar KBool);
+                  mkProp [98] [2] false true [1] (FScalar KInt32)])].
+Definition rt_msg : msg := [(1, VInt (-42)%Z); (2, VMsg [(1, VStr [120])]); (3, VMsg [(1, VBool true)])].
+Definition rt_fmt (is32 : bool) (bits : N) : bytes := [48].
+Definition rt_inner (tn pb : bytes) : outcome bytes := Err "none".
+Definition rt_pf (is32 : bool) (s : bytes) : option N := None.
+Definition rt_pt (s : bytes) : option (Z * Z) := None.
+
+Definition rt_txt : bytes := Eval vm_compute in
+  match encode rt_fmt rt_inner rt_env [82] rt_msg with Ok t => t | _ => [] end.
+Definition rt_tree : jvalue := Eval vm_compute in
+  match strict_parse rt_txt with Some j => j | None => JNull end.
+
+Example C01_roundtrip_example :
+  oneofs_flat rt_env /\ oneof_names_ok rt_env /\ rep_root rt_env [82] rt_msg /\
+  encode rt_fmt rt_inner rt_env [82] rt_msg = Ok rt_txt /\ strict_parse rt_txt = Some rt_tree /\
+  decode_tree rt_pf rt_pt rt_env [82] rt_tree = Ok rt_msg.
+Proof.
+  split; [apply oneofs_flat_b_sound; vm_compute; reflexivity|].
+  split; [apply oneof_names_ok_b_sound; vm_compute; reflexivity|].
+  split.
+  - unfold rep_root. change (lookup rt_env [82]) with (Some (SObject
+      [mkProp [105] [1] false false [] (FScalar KInt64);
+       mkProp [102] [2; 1] false false [] (FScalar KString);
+       mkProp [119] [3] false true [] (FOneof [87])])).
+    constructor.
+    + apply props_ok_b_sound. vm_compute. reflexivity.
+    + intros l v Hl Hv. vm_compute in Hl. destruct Hl as [<-|[<-|[<-|[]]]]; vm_compute in Hv; injection Hv as <-.
+      * split; [constructor; cbn; lia|reflexivity].
+      * split; [constructor; vm_compute; reflexivity|reflexivity].
+      * split; [|reflexivity]. apply RV_oneof with (ps := [mkProp [97] [1] false true [2] (FScalar KBool);
+                                                          mkProp [98] [2] false true [1] (FScalar KInt32)]); [reflexivity|].
+        constructor.
+        -- apply props_ok_b_sound. vm_compute. reflexivity.
+        -- intros l v Hl Hv. vm_compute in Hl. destruct Hl as [<-|[<-|[]]]; vm_compute in Hv; [injection Hv as <-|discriminate].
+           split; [constructor; exact I|reflexivity].
+        -- intros l a n s v Hl Hp Hv Hs. vm_compute in Hl. destruct Hl as [<-|[<-|[]]]; vm_compute in Hv; [|discriminate].
+           cbn [p_path p_siblings] in Hp, Hs. destruct Hs as [<-|[]].
+           destruct a as [|a0 a]; [|destruct a; discriminate]. reflexivity.
+        -- intros p q1 q2 Hp Hq1. vm_compute in Hp. destruct Hp as [<-|[<-|[]]]; contradiction.
+    + intros l a n s v Hl Hp Hv Hs. vm_compute in Hl. destruct Hl as [<-|[<-|[<-|[]]]]; cbn [p_siblings] in Hs; contradiction.
+    + intros p q1 q2 Hp Hq1. vm_compute in Hp. destruct Hp as [<-|[<-|[<-|[]]]]; contradiction.
+  - split; [vm_compute; reflexivity|]. split; vm_compute; reflexivity.
 Qed.
